@@ -168,7 +168,7 @@ func (fr *frame) loopModSet(lp *loop) map[string]int {
 			if a.Occ == -1 {
 				for b := range lp.body {
 					for _, ins := range b.Instrs {
-						if c, ok := ins.(*ssa.Call); ok && fr.isAssertSite(a, c) {
+						if fr.isSiteInstr(ins) && fr.isAssertSite(a, ins) {
 							ms[e.ghostHeap(a.Label)] = modAny
 						}
 					}
